@@ -249,10 +249,10 @@ int main(int argc, char** argv) {
   auto P = prims();
   const int np = (int)P.size();
   // (length, all contents) x concurrency settings x schedules
-  const int maxLen = thorough ? 7 : 5;
-  const std::vector<int> CONC = thorough ? std::vector<int>{1, 2, 4} : std::vector<int>{2, 4};
+  const int maxLen = thorough ? 8 : 6;
+  const std::vector<int> CONC = thorough ? std::vector<int>{1, 2, 4, 16} : std::vector<int>{1, 2, 4};
   const int W = thorough ? 3 : 2;
-  auto boundFor = [&](int len) { return thorough ? (len <= 5 ? 3 : 2) : (len <= 4 ? 2 : 1); };
+  auto boundFor = [&](int len) { return thorough ? (len <= 6 ? 3 : 2) : (len <= 4 ? 3 : 2); };
 
   std::vector<std::pair<int, uint64_t>> inputs;  // (len, code)
   for (int len = 0; len <= maxLen; ++len) {
@@ -277,6 +277,7 @@ int main(int argc, char** argv) {
     cfg.workers = W;
     cfg.concurrency = CONC[ci];
     cfg.timeout = 20;
+    cfg.inProcess = true;  // fork costs ~30 ms in this sandbox; executions run inside the worker, state reset by tbbrt_reset/vs_begin
     auto body = [&]() {
       kSeqThreshold = p.seqThreshold;
       verif::par_threshold = 0;
@@ -315,7 +316,7 @@ int main(int argc, char** argv) {
   {  // DisjointSets: unite/find on 4 elements with forced-colliding pairs
     static const int PAIRS[5][2] = {{0, 1}, {1, 2}, {2, 0}, {2, 3}, {1, 0}};
     const int npairs = 5;
-    const bool three = thorough;
+    const bool three = true;
     // quick: 2 threads x 2 unites; thorough adds 3 threads x (unite, unite|find)
     std::vector<std::vector<std::vector<int>>> progs;  // per program: per thread: list of pair indices (>=100: find(x-100))
     for (int a = 0; a < npairs; ++a)
@@ -352,11 +353,13 @@ int main(int argc, char** argv) {
         for (int j = 0; j < 4; ++j) expect += fnd(i) == fnd(j) ? '1' : '0';
       vx::Explorer ex;
       vx::Config cfg;
-      cfg.bound = thorough ? 3 : 2;
+      cfg.bound = thorough ? 4 : 3;
       cfg.freeCost = 0;
       cfg.useTbb = false;
       cfg.timeout = 20;
+      cfg.inProcess = true;
       auto body = [&]() {
+        verif::yield = [](const char* tag, const void*) { vs_point(tag); };
         verif::par_threshold = 1 << 30;  // constructor loop stays sequential
         DisjointSets ds(4);
         std::string bad;
@@ -439,7 +442,7 @@ int main(int argc, char** argv) {
         for (int b = 0; b < na; ++b)
           for (int c2 = 0; c2 < na; ++c2)
             for (int d = 0; d < na; ++d) progs.push_back({size, {{a, b}, {c2, d}}});
-    if (thorough)
+    if (true)
       for (int size : {8, 4})
         for (int a = 0; a < na; ++a)
           for (int b = 0; b < na; ++b)
@@ -457,10 +460,12 @@ int main(int argc, char** argv) {
       c.describe(name);
       vx::Explorer ex;
       vx::Config cfg;
-      cfg.bound = thorough ? 3 : 2;
+      cfg.bound = thorough ? 4 : 3;
       cfg.freeCost = 0;
       cfg.useTbb = false;
+      cfg.inProcess = true;
       auto body = [&]() {
+        verif::yield = [](const char* tag, const void*) { vs_point(tag); };
         verif::par_threshold = 1 << 30;
         HashTable<int, identityHash> table(pr.first);
         auto d = table.D();
